@@ -1,10 +1,10 @@
 CONSTANTS
   ZoneKinds <- MCZoneKinds
   QKinds <- MCQKinds
-  Tampers <- MCTampers
+  Tampers <- MCTamperPairs
   Flags <- MCFlags
   Anchors = {TRUE, FALSE}
-  Fallbacks = {"none", "honest", "lying"}
+  Fallbacks = {"honest", "lying"}
   FailoverRule = "statement"
 SPECIFICATION Spec
 INVARIANTS TruthOrServfail NeverAlteredData VerdictIsFinal ADImpliesSecure InsecureOnlyByProof NoAnchorFailsClosed ServfailHasEDE
